@@ -5,6 +5,83 @@ CFG = {"cmds": ["restore"], "oracles": ("effects", "listing", "exit"), "violatio
        "profile": "mixed", "states": False}
 
 
+def nested_pair_world(seed, i):
+    """entries that depend on each other: a file trashed from inside a directory (older), then the directory itself (newer).
+    Restoring the file first makes the directory as a by-product and the directory entry is then refused; the reply decides
+    the order ('1,0' restores both, '0,1' only the file) - the entries are restored in the order the reply names them"""
+    from ..model import W, cmd_argv
+    from ..runner import task_rng
+    from ..sandbox import MODEL_ROOT as R
+    rng = task_rng("C13nest", seed, i)
+    w = W()
+    home = w.dir(R + b"/home/u")
+    t = home + b"/.local/share/Trash"
+    w.dir(t, 0o700)
+    w.dir(t + b"/files", 0o700)
+    w.dir(t + b"/info", 0o700)
+    w.dir(R + b"/w")
+    d = rng.choice([b"d", b"proj x"])
+    rows = [(b"f", R + b"/w/" + d + b"/f", "2021-01-01T00:00:00", False), (d, R + b"/w/" + d, "2021-01-02T00:00:00", True)]
+    if i % 3 == 2:
+        rows.append((b"other", R + b"/w/other", "2021-01-03T00:00:00", False))
+    entries = []
+    for nm, loc, date, isdir in rows:
+        w.file(t + b"/info/" + nm + b".trashinfo", b"[Trash Info]\nPath=" + loc.replace(b" ", b"%20") + b"\nDeletionDate=" + date.encode() + b"\n", 0o600)
+        if isdir:
+            w.dir(t + b"/files/" + nm, 0o750)
+            w.file(t + b"/files/" + nm + b"/kept", b"stayed in the directory")
+        else:
+            w.file(t + b"/files/" + nm, b"payload of " + nm)
+        entries.append({"tdir": t, "name": nm, "loc": loc, "rec": loc, "date": date, "base": None})
+    reply = [b"1,0", b"0,1", b"1-1,0", b"2,1,0", b"1,0-0", b"0-1"][i % 6] if len(rows) == 3 or i % 6 != 3 else b"1,0"
+    world = w.world(env={"HOME": home}, uid=1000, cwd=R, cmd="restore", opts={"path": b"/", "sort": "date"}, args=[], stdin=reply + b"\n",
+                    meta={"entries": entries, "tdirs": [(t, None)], "profile": "nested-pair", "payload_kinds": ["file", "tree"], "sentinels": []})
+    world["argv"] = cmd_argv(world)
+    return world
+
+
+def nested_pair_task(task):
+    """model correspondence as everywhere; on top of it the property's own words for the replies that name the directory
+    before the file: every denoted index is within the list and both destinations are free when their turn comes, so exactly
+    those entries are restored (and the command succeeds)"""
+    from ..readfamily import eval_task
+    from ..runner import jsonable
+    from ..sandbox import run_world
+    from ..model import snap_to_state
+    world = nested_pair_world(task["seed"], task["i"])
+    out = eval_task(dict(task, world=world, i=1))
+    reply = world["stdin"].strip()
+    order = []
+    for part in reply.split(b","):
+        a, _, b_ = part.partition(b"-")
+        order += list(range(int(a), int(b_ or a) + 1))
+    if 0 in order and 1 in order and order.index(1) < order.index(0):
+        obs = run_world(world, {})
+        after = snap_to_state(obs["after"])
+        ents = world["meta"]["entries"]
+        t = ents[0]["tdir"]
+        problems = []
+        for k in sorted(set(order)):
+            e = ents[k]
+            if e["loc"] not in after:
+                problems.append("entry %d (%r) was chosen, its destination was free at its turn, and it is not restored" % (k, e["loc"]))
+            if t + b"/info/" + e["name"] + b".trashinfo" in after or t + b"/files/" + e["name"] in after:
+                problems.append("entry %d (%r) is still in the trash" % (k, e["name"]))
+        if obs.get("exit") not in (0, None):
+            problems.append("exit status %r" % (obs.get("exit"),))
+        if problems:
+            out["bad"].append({"oracle": "reply-order", "verdict": "; ".join(problems),
+                               "sig": {"oracle": "reply-order", "cmd": "restore", "verdict": "chosenNotRestored", "restore_class": None}})
+            out["world"] = jsonable(world)
+            out["stdout"] = repr(obs["stdout"][-1200:])
+            out["stderr"] = repr(obs["stderr"][-1200:])
+    return out
+
+
 def add_world_level(ck, pid, tier, seed):
     add_worlds(ck, pid, seed, CFG, 250 if tier == "quick" else 3000)
+    from ..readfamily import absorb
+    from ..runner import run_tasks
+    cfg = dict(CFG, tweak=None, oracles=("listing", "exit"), violations=("listing", "exit", "reply-order"))
+    absorb(ck, run_tasks(nested_pair_task, [{"pid": pid, "seed": seed, "i": i, "cfg": cfg} for i in range(12 if tier == "quick" else 60)]), cfg)
     ck.extra["world_level"] = "trash-restore runs with sort modes, path arguments, replies; listing and effects against ground truth"
